@@ -131,16 +131,23 @@ def midi_repeat_after_reset(rng, sid):
     ch = rng.randrange(16)
     ops = ["midi.new %d" % ch]
     msgs = []
+    p_bend = rng.choice([0.5, 0.0])
     for _ in range(rng.randrange(1, 5)):
-        if rng.random() < 0.5:
+        if rng.random() < p_bend:
             msgs.append([0xE0 | ch, rng.randrange(128), rng.choice([0, 127, 64, rng.randrange(128)])])
         else:
             msgs.append([0xB0 | ch, rng.choice([1, 7, 71, 74, 5, 65, 64]), rng.choice([0, 127, 63, 64, rng.randrange(128)])])
     if rng.random() < 0.5:
         msgs.insert(rng.randrange(len(msgs) + 1), [0x90 | ch, 60, 100])
     seq = msgs + [[0xB0 | ch, 121, rng.choice([0, 127])]] + msgs + msgs
+    running = rng.random() < 0.5
+    last = None
     for m in seq:
-        for b in m:
+        data = m
+        if running and m[0] == last:
+            data = m[1:]          # running status: the status byte is not repeated
+        last = m[0]
+        for b in data:
             ops.append("b %d" % b)
     return Script(sid, ops, {"module": "midi", "family": "repeat-after-reset"})
 
@@ -279,6 +286,21 @@ def quant_edit_roundtrip(rng, sid):
     return Script(sid, ops, {"module": "quant", "family": "edit-roundtrip"})
 
 
+def quant_fresh_boundary(rng, sid, k):
+    """fresh quantizer: land on note k-1 just below the boundary k/12, then move inside the
+    hysteresis band above the boundary and back: the note must not change"""
+    b = k / 12.0
+    ops = ["quant.new"]
+    if rng.random() < 0.3:
+        keep = {(k - 1) % 12, k % 12, (k + 1) % 12}
+        ops.append("forbid " + ",".join(str(n) for n in range(12) if n not in keep))
+    ops.append("conv " + fhex(b - rng.uniform(0.001, 0.04)))
+    for _ in range(rng.randrange(2, 5)):
+        ops.append("conv " + fhex(b + rng.uniform(0.0002, 0.008)))
+        ops.append("conv " + fhex(b - rng.uniform(0.0002, 0.008)))
+    return Script(sid, ops, {"module": "quant", "family": "noise", "k": k})
+
+
 def quant_scripts(rng, n_hist, n_masks, n_ramps):
     res = []
     for i in range(n_hist):
@@ -295,6 +317,8 @@ def quant_scripts(rng, n_hist, n_masks, n_ramps):
         res += quant_fresh(rng, "q-f%d" % mi, m, volts)
     for i in range(max(n_hist // 2, 20)):
         res.append(quant_edit_roundtrip(rng, "q-e%d" % i))
+    for i, k in enumerate([1, 1, 2, 12, 13, 61, 120, rng.randrange(1, 121), rng.randrange(1, 121)]):
+        res.append(quant_fresh_boundary(rng, "q-b%d" % i, k))
     for i in range(n_ramps):
         res.append(quant_ramp(rng, "q-r%d" % i, rng.choice([4095, 4095, rng.randrange(1, 4096)]), rng.randrange(10, 80)))
         res.append(quant_noise(rng, "q-n%d" % i, rng.randrange(1, 121), rng.randrange(5, 40)))
@@ -390,7 +414,8 @@ def lfo_script(rng, sid, n):
             p = rng.choice([0.0, 0.25, 0.5, 0.75, 0.999999, 1.0, 1.25, -0.25, -1.25, 123.456, -7.7, 1e-8, 16777216.5,
                             1e20, -1e20, rng.uniform(-3, 3), rng.uniform(0, 1),
                             from_bits(0x3f7fffff), -from_bits(0x3f7fffff), from_bits(0x3f7ffffe), 1.9999999, 3.9999998,
-                            from_bits(0x3effffff), from_bits(0x3f000001), 5.960464477539063e-08])
+                            from_bits(0x3effffff), from_bits(0x3f000001), 5.960464477539063e-08,
+                            -1e-9, -2.9e-8, -5.960464477539063e-08, -1e-20])
             ops.append("phase " + hx(p))
         elif r < 0.16:
             ops.append("reset")
@@ -425,7 +450,8 @@ def lfo_phase_edges(sid):
     """set_phase at the representable values around every integer / half, read immediately"""
     ops = ["lfo.new " + hx(1000.0), "freq " + hx(1.0)]
     for b in (0x3f7fffff, 0x3f7ffffe, 0x3f800000, 0x3f800001, 0x3effffff, 0x3f000000, 0x3f000001, 0x3fffffff,
-              0xbf7fffff, 0x33800000, 0x00000001, 0x407fffff, 0x4b7fffff, 0x4affffff):
+              0xbf7fffff, 0x33800000, 0x00000001, 0x407fffff, 0x4b7fffff, 0x4affffff,
+              0xb089705f, 0xb2000000, 0xb3000000, 0x80000001, 0xa0000000):
         ops.append("phase %08x" % b)
         ops.append("tick")
     return Script(sid, ops, {"module": "lfo", "family": "phase-edges", "fs": 1000.0})
